@@ -62,6 +62,8 @@ def run(chk, tier):
         into_counter(chk, F, 'R03.4', cfg)
         from props import ctor
         ctor.builder_constructors(chk, F, 'R03.4.ctor', cfg)
+        efn, epaths, erows = E.eval_dyn_table(chk, F, 'R03.5.table', cfg)
+        E.counting_discipline(chk, F, 'R03.5', cfg, efn, erows)
 
 
 def counter_verify(chk, F, rule, cfg):
